@@ -21,7 +21,7 @@
 From Coq Require Import List Bool String.
 Import ListNotations.
 From DA Require Import Base.PyRT Base.Val Model.Sem Model.Compose
-  Proofs.ComposeP Proofs.ComposeP2 Proofs.ComposeP3 Proofs.ComposeP4.
+  Proofs.ComposeP Proofs.ComposeP2 Proofs.ComposeP3 Proofs.ComposeP4 Proofs.ComposeP5.
 
 (* replacing leaves = running the outer pipeline on the results of the replacements.
    boundary_ok m p: every replaced leaf declares exactly the columns its replacement produces (same order). *)
@@ -108,6 +108,25 @@ Theorem C07_arrow_transform_is_sequential :
 Proof. exact arrow_transform_sequential. Qed.
 Print Assumptions C07_arrow_transform_is_sequential.
 
+(* ---- the boundary exactly as the code tests it: equal column SETS (act_on asserts set(b.column_names) == set(old.column_names),
+        DataOpArrow.act_on raises on missing / extra columns).  Then the composed pipeline is b run on the results of the
+        replacements UP TO COLUMN ORDER: otab_eqv = both undefined, or the same column set, the same number of rows in the
+        same order, and every row the same function from column names to values.  renames_okb: no rename_columns /
+        map_columns step gives two of its input columns the same name (such nodes cannot be constructed). *)
+Theorem C07_replace_leaves_sem_up_to_column_order :
+  forall fl m p env, built_ok p = true -> boundary_sets_ok m p = true -> renames_okb p = true ->
+  otab_eqv (sem_gen fl (replace_leaves m p) env) (sem_gen fl p (override fl env m)).
+Proof. exact replace_leaves_sem_up_to_column_order. Qed.
+Print Assumptions C07_replace_leaves_sem_up_to_column_order.
+
+(* whenever a >> b is accepted on a single-table pipeline b, its result is b run on a's result, up to column order *)
+Theorem C07_rshift_is_sequential_up_to_column_order :
+  forall fl k a b c env,
+  only_table k b -> built_ok b = true -> renames_okb b = true -> rshift a b = Some c ->
+  otab_eqv (sem_gen fl c env) (sem_gen fl b (env_set env k (sem_gen fl a env))).
+Proof. exact rshift_sequential_up_to_column_order. Qed.
+Print Assumptions C07_rshift_is_sequential_up_to_column_order.
+
 (* ---- where the hypotheses are needed *)
 (* without the boundary condition the statement is false (the replacement has one column more than the leaf declares;
    a table leaf selects its declared columns, the substituted pipeline is taken whole) *)
@@ -116,7 +135,8 @@ Theorem C07_replace_leaves_sem_without_boundary_refuted :
 Proof. exact without_boundary_refuted. Qed.
 Print Assumptions C07_replace_leaves_sem_without_boundary_refuted.
 
-(* equal column SETS -- all that act_on and DataOpArrow.act_on test -- give equality only up to column order *)
+(* equal column SETS -- all that act_on and DataOpArrow.act_on test -- do not give the same table, only the same table
+   up to column order (the two theorems above) *)
 Theorem C07_set_boundary_exact_equality_refuted :
   exists fl a b c env, rshift a b = Some c /\ sem_gen fl c env <> sem_gen fl b (env_set env "e" (sem_gen fl a env)).
 Proof. exact set_boundary_refuted. Qed.
@@ -158,3 +178,9 @@ Proof. exact map_columns_after_fix. Qed.
 Example C07_example_after_fix_partition_one :
   sem_gen fl_spec (replace_leaves [("e"%string, a_ext)] b_size1) env_d = sem_gen fl_spec b_size1 (override fl_spec env_d [("e"%string, a_ext)]).
 Proof. exact extend_partition_one_after_fix. Qed.
+(* the witness of C07_set_boundary_exact_equality_refuted satisfies the up-to-column-order theorem *)
+Example C07_example_up_to_column_order :
+  only_table "e" b_keep /\ built_ok b_keep = true /\ renames_okb b_keep = true /\
+  exists c, rshift a_swapped b_keep = Some c /\
+            otab_eqv (sem_gen fl_spec c env_d) (sem_gen fl_spec b_keep (env_set env_d "e" (sem_gen fl_spec a_swapped env_d))).
+Proof. exact example_up_to_column_order. Qed.
